@@ -12,6 +12,7 @@ use crate::oracles::text_index as ti;
 use crate::oracles::text_index::Pi;
 use bio::alphabets::Alphabet;
 use bio::data_structures::bwt::{bwt, invert_bwt, less, Occ};
+use bio::utils::{prescan, scan};
 use serde_json::{json, Value};
 use std::cell::Cell;
 
@@ -345,6 +346,95 @@ fn family_unit(tier: Tier, shard: usize, ctx: &mut Ctx) {
     }
 }
 
+// ------------------------------------------------------------------------------------------------
+// kind "scan": utils::scan (inclusive) and utils::prescan (exclusive) on one non-empty slice
+// ------------------------------------------------------------------------------------------------
+
+/// the three slice values a digit stands for (a negative one, so that `max` is not `sum` in disguise)
+const SCAN_VALUES: [i64; 3] = [-2, 0, 3];
+const SCAN_SHARDS: usize = 2;
+
+/// associative but not commutative: concatenation of digit strings, as (length, value in base 4)
+fn cat(a: (u32, u64), b: (u32, u64)) -> (u32, u64) {
+    (a.0 + b.0, a.1 * 4u64.pow(b.0) + b.1)
+}
+
+/// a[0] op a[1] op ... op a[i], by definition (left to right, quadratic overall)
+fn fold_upto<T: Copy>(a: &[T], i: usize, op: impl Fn(T, T) -> T) -> T {
+    let mut acc = a[0];
+    for &v in &a[1..=i] {
+        acc = op(acc, v);
+    }
+    acc
+}
+
+fn scan_one<T: Copy + PartialEq + std::fmt::Debug>(
+    name: &str,
+    input: &[T],
+    neutral: T,
+    op: impl Fn(T, T) -> T + Copy,
+    cc: &mut CaseCtx,
+) {
+    let n = input.len();
+    // inclusive: out[i] = a[0] op .. op a[i]
+    let want_scan: Vec<T> = (0..n).map(|i| fold_upto(input, i, op)).collect();
+    // exclusive: out[0] = neutral, out[i] = neutral op a[0] op .. op a[i-1]
+    let want_pre: Vec<T> = (0..n).map(|i| if i == 0 { neutral } else { op(neutral, fold_upto(input, i - 1, op)) }).collect();
+    let mut a = input.to_vec();
+    match guard(|| {
+        scan(&mut a[..], op);
+    }) {
+        Err(msg) => cc.violation("C04/scan/panic", format!("scan({:?}, {}): {}", input, name, msg)),
+        Ok(()) => {
+            if a != want_scan {
+                cc.violation(
+                    "C04/scan/wrong-value",
+                    format!("scan({:?}, {}) left {:?}, inclusive prefix results are {:?}", input, name, a, want_scan),
+                );
+            }
+        }
+    }
+    let mut b = input.to_vec();
+    match guard(|| {
+        prescan(&mut b[..], neutral, op);
+    }) {
+        Err(msg) => cc.violation("C04/prescan/panic", format!("prescan({:?}, {:?}, {}): {}", input, neutral, name, msg)),
+        Ok(()) => {
+            if b != want_pre {
+                cc.violation(
+                    "C04/prescan/wrong-value",
+                    format!("prescan({:?}, {:?}, {}) left {:?}, exclusive prefix results are {:?}", input, neutral, name, b, want_pre),
+                );
+            }
+        }
+    }
+}
+
+fn check_scan(digits: &[u8], cc: &mut CaseCtx) {
+    if digits.is_empty() || digits.iter().any(|&d| d as usize >= SCAN_VALUES.len()) {
+        return; // the empty slice is outside what the documentation defines
+    }
+    let vals: Vec<i64> = digits.iter().map(|&d| SCAN_VALUES[d as usize]).collect();
+    let counts: Vec<usize> = digits.iter().map(|&d| d as usize).collect();
+    let words: Vec<(u32, u64)> = digits.iter().map(|&d| (1u32, d as u64 + 1)).collect();
+    cc.set_nontrivial(digits.len() >= 2 && digits.iter().any(|&d| d != digits[0]));
+    cc.outcome(&vals.iter().sum::<i64>());
+    cc.outcome(&vals.iter().max());
+    scan_one("+", &vals, 0i64, |x, y| x + y, cc);
+    scan_one("max", &vals, i64::MIN, |x: i64, y: i64| x.max(y), cc);
+    scan_one("min", &vals, i64::MAX, |x: i64, y: i64| x.min(y), cc);
+    // the element type and operation `less` uses
+    scan_one("+usize", &counts, 0usize, |x, y| x + y, cc);
+    scan_one("concat", &words, (0u32, 0u64), cat, cc);
+}
+
+fn scan_unit(tier: Tier, shard: usize, ctx: &mut Ctx) {
+    let maxlen = tier.pick(10, 12);
+    ti::for_each_body(3, 1, maxlen, shard, SCAN_SHARDS, |_, d| {
+        ctx.case(|| json!({"kind": "scan", "digits": d, "values": SCAN_VALUES}), |cc| check_scan(d, cc));
+    });
+}
+
 impl Prop for C04Prop {
     fn id(&self) -> &'static str {
         "C04"
@@ -353,7 +443,7 @@ impl Prop for C04Prop {
         "exploration"
     }
     fn rule(&self) -> &'static str {
-        "Texts as in C03 (complete sweep of body.$ over {$,a,b}/{$,a,b,c} in two byte embeddings, repetitive families in several sentinel layouts) with the oracle's suffix array under sentinel order desc and, for multi-sentinel texts, asc. Case kinds: tables = one (text, pi): bwt() against 'symbol cyclically preceding the r-th suffix', less() for three alphabets (own symbols, +1 absent, +2 absent incl. one above the maximum) at every alphabet symbol, invert_bwt for single-sentinel texts; occ = one (BWT of a text, alphabet variant, k): Occ::new then Occ::get for every row and every alphabet symbol (including absent ones and the sentinel) against counting. Small texts take every k in 1..=2n; the look-ahead family (texts c1$...cn$, n in 100..=200(260), at most two rare symbols at every position pair, both colourings; BWT = reverse(c).$^n) takes k around 64/100/128(/192/256). Non-trivial: tables: text has a twice-occurring factor of length 2 or >=2 sentinels; occ: k<=64: k>=2 and n>=2 (a row strictly between checkpoints); k>64: some row lies within k/2 below an existing checkpoint (the look-ahead branch is eligible), counted in occ_rows_in_lookahead_zone."
+        "Texts as in C03 (complete sweep of body.$ over {$,a,b}/{$,a,b,c} in two byte embeddings, repetitive families in several sentinel layouts) with the oracle's suffix array under sentinel order desc and, for multi-sentinel texts, asc. Case kinds: tables = one (text, pi): bwt() against 'symbol cyclically preceding the r-th suffix', less() for three alphabets (own symbols, +1 absent, +2 absent incl. one above the maximum) at every alphabet symbol, invert_bwt for single-sentinel texts; occ = one (BWT of a text, alphabet variant, k): Occ::new then Occ::get for every row and every alphabet symbol (including absent ones and the sentinel) against counting. Small texts take every k in 1..=2n; the look-ahead family (texts c1$...cn$, n in 100..=200(260), at most two rare symbols at every position pair, both colourings; BWT = reverse(c).$^n) takes k around 64/100/128(/192/256). Non-trivial: tables: text has a twice-occurring factor of length 2 or >=2 sentinels; occ: k<=64: k>=2 and n>=2 (a row strictly between checkpoints); k>64: some row lies within k/2 below an existing checkpoint (the look-ahead branch is eligible), counted in occ_rows_in_lookahead_zone. scan = one non-empty slice over three values {-2,0,3} (every slice up to the length bound): utils::scan (inclusive) and utils::prescan (exclusive, with the operation's neutral element) for +, max, min on i64, + on usize (what less() uses) and a non-commutative associative concatenation, against left-to-right folding by definition; non-trivial: length >= 2 and not constant."
     }
     fn assumptions(&self) -> Vec<&'static str> {
         vec![
@@ -361,6 +451,7 @@ impl Prop for C04Prop {
             "Occ is only fed BWTs of valid sentinel-terminated texts and alphabets that contain all text symbols (what the statement quantifies over); k ranges over 1..=2n for small texts",
             "less is compared at alphabet symbols only (the statement does not fix entries for bytes outside the alphabet)",
             "invert_bwt only for single-sentinel texts",
+            "scan/prescan: only non-empty slices (the documentation does not define scan on an empty slice) and only associative operations; prescan is given the operation's neutral element",
         ]
     }
     fn bounds(&self, tier: Tier) -> Value {
@@ -372,6 +463,7 @@ impl Prop for C04Prop {
             "single-letter multi-sequence texts c1$..cn$, c in {a,b}^n": format!("n in 2..={}", b.seqs),
             "small texts": "every k in 1..=2n; alphabet variants 0 and 2 (desc), 1 (asc)",
             "lookahead family": {"n": lookahead_ns(tier), "k": lookahead_ks(tier), "strings": "x^n with <=2 a at every position pair, and colour-swapped; BWT length 2n"},
+            "scan": {"slice_len": format!("1..={}", tier.pick(10, 12)), "values": SCAN_VALUES, "ops": "+, max, min (i64), + (usize), concat ((u32,u64), non-commutative)"},
             "families": {"texts": ti::family_bodies(tier, b.small3).len(), "k": "1,2,3,(7),8,(31),32,(33),63,64,65,(66),100,128,(129),130,n-1,n,n+1,2n"}
         })
     }
@@ -379,6 +471,7 @@ impl Prop for C04Prop {
         let mut v: Vec<String> = (0..SWEEP_SHARDS).map(|i| format!("sweep-{}", i)).collect();
         v.extend((0..LOOKAHEAD_SHARDS).map(|i| format!("lookahead-{}", i)));
         v.extend((0..FAMILY_SHARDS).map(|i| format!("families-{}", i)));
+        v.extend((0..SCAN_SHARDS).map(|i| format!("scan-{}", i)));
         v
     }
     fn run_unit(&self, tier: Tier, unit: usize, ctx: &mut Ctx) {
@@ -386,14 +479,21 @@ impl Prop for C04Prop {
             sweep_unit(tier, unit, ctx)
         } else if unit < SWEEP_SHARDS + LOOKAHEAD_SHARDS {
             lookahead_unit(tier, unit - SWEEP_SHARDS, ctx)
-        } else {
+        } else if unit < SWEEP_SHARDS + LOOKAHEAD_SHARDS + FAMILY_SHARDS {
             family_unit(tier, unit - SWEEP_SHARDS - LOOKAHEAD_SHARDS, ctx)
+        } else {
+            scan_unit(tier, unit - SWEEP_SHARDS - LOOKAHEAD_SHARDS - FAMILY_SHARDS, ctx)
         }
     }
     fn death_key(&self, case: &Value, how: &str) -> String {
         format!("{}/no-return/{}", case["kind"].as_str().unwrap_or("unknown"), how)
     }
     fn replay(&self, case: &Value, ctx: &mut Ctx) {
+        if case["kind"] == "scan" {
+            let d: Vec<u8> = serde_json::from_value(case["digits"].clone()).unwrap_or_default();
+            ctx.case(|| case.clone(), |cc| check_scan(&d, cc));
+            return;
+        }
         let text = unshow(case["text"].as_str().unwrap_or(""));
         if !ti::is_valid_text(&text) {
             return;
